@@ -30,7 +30,7 @@ P = ScenarioProperty(
     {
         "levels": (2, 3),
         "level_limit_max": 3,
-        "force_level_limit": True,
+        "force_level_limit": True, "second_run": True,
         "families": ["step", "constant", "sphere", "rastrigin", "twobasin"],
         "generators": ["NBC", "Scripted", "Scripted", "Scripted", "BestPerDeme"],
         "sprout_kinds": ["simple", "nbc", "composed", "composed", "composed"],
